@@ -7,5 +7,10 @@ export GOFLAGS=-mod=mod GOPROXY=off GOSUMDB=off GOTOOLCHAIN=local
 for t in strace unshare timeout; do command -v $t >/dev/null || { echo "missing tool: $t"; exit 1; }; done
 out="$(mktemp -d /tmp/vsetup.XXXXXX)"
 trap 'rm -rf "$out"' EXIT
-(cd harness && go build -tags verif -o "$out/" ./cmd/...)
+cd harness
+go build -tags verif -o "$out/" ./cmd/...
+GOARCH=386 go build -tags verif -o "$out/vchild386" ./cmd/vchild
+go build -race -tags verif -o "$out/vc-race" ./cmd/vc
+go build -race -tags verif -o "$out/vchild-race" ./cmd/vchild
+(cd /repo && go build -o "$out/" ./cmd/...)
 echo "setup ok"
